@@ -20,6 +20,16 @@
 //!        -> (C02) canonical tree WITH ranges, `ctx` fields removed, of the body of the Expression-mode parse;
 //!           `stale-tokens` when `<spans>` is not what `lexspans e` answers now.  `<spans>` is the attachment for the
 //!           Lean model (`drv_c02`), which computes the same tree from the source's tokens and these spans.
+//!   rtoks <mode m|i|e> <hex src>
+//!        -> (C02) `<tokens> <spans>`: the token stream the LALRPOP parser is fed (`lexer::lex(src, mode)`, i.e. lexer +
+//!           soft-keyword pass, without the start marker; item syntax of `pvh_prog toks`: n<hex> Name, i<dec> Int,
+//!           f<16 hex> Float, c<16 hex> Complex, s<kind><triple><hex> String, k<word> keyword, o<hex> operator,
+//!           N Newline, I Indent, D Dedent) and the byte spans `a-b,…` of those tokens (`- -` when there is none),
+//!           or `(err <offset>)`
+//!   rprog <mode> <hex src> <tokens> <spans>
+//!        -> (C02) canonical tree WITH ranges, `ctx` fields removed, of the whole parse in that mode; `stale-tokens` when
+//!           `<spans>` is not what `rtoks` answers now.  `<tokens> <spans>` is the attachment for the Lean model
+//!           (`drv_c02`: `PV.C02.parseRProgram` computes the same tree from these tokens and spans).
 //!
 //! Builds in feature sets `default` and `all-ranges` (with `all-ranges` every node kind carries `@a..b`).
 use pvh::*;
@@ -83,6 +93,72 @@ fn token_spans(src: &str, mode: Mode) -> Result<String, String> {
         .map(|(_, a, b)| format!("{}-{}", a, b))
         .collect::<Vec<_>>()
         .join(","))
+}
+
+fn hx(s: &str) -> String {
+    hex(s.as_bytes())
+}
+
+/// one token in the compact form of `pvh_prog toks`
+fn tok_text(t: &rustpython_parser::Tok) -> String {
+    use rustpython_parser::{StringKind, Tok};
+    match t {
+        Tok::Name { name } => format!("n{}", hx(name)),
+        Tok::Int { value } => format!("i{}", value),
+        Tok::Float { value } => format!("f{:016x}", value.to_bits()),
+        Tok::Complex { real, imag } => {
+            if real.to_bits() == 0 {
+                format!("c{:016x}", imag.to_bits())
+            } else {
+                format!("C{:016x}:{:016x}", real.to_bits(), imag.to_bits())
+            }
+        }
+        Tok::String { value, kind, triple_quoted } => {
+            let k = match kind {
+                StringKind::String => 's',
+                StringKind::FString => 'f',
+                StringKind::Bytes => 'b',
+                StringKind::RawString => 'r',
+                StringKind::RawFString => 'R',
+                StringKind::RawBytes => 'B',
+                StringKind::Unicode => 'u',
+            };
+            format!("s{}{}{}", k, if *triple_quoted { 1 } else { 0 }, hx(value))
+        }
+        Tok::Newline => "N".to_string(),
+        Tok::Indent => "I".to_string(),
+        Tok::Dedent => "D".to_string(),
+        Tok::EndOfFile => "Z".to_string(),
+        Tok::StartModule | Tok::StartInteractive | Tok::StartExpression => "S".to_string(),
+        other => {
+            let s = format!("{}", other);
+            let sp = s.trim_matches('\'');
+            if sp.chars().next().map(|c| c.is_ascii_alphabetic()).unwrap_or(false) {
+                format!("k{}", sp)
+            } else {
+                format!("o{}", hx(sp))
+            }
+        }
+    }
+}
+
+/// tokens and byte spans of everything the grammar is fed (C02 `rtoks`): `(tokens, spans)`
+fn tokens_and_spans(src: &str, mode: Mode) -> Result<(String, String), String> {
+    let mut ts: Vec<String> = Vec::new();
+    let mut sp: Vec<String> = Vec::new();
+    for item in rustpython_parser::lexer::lex(src, mode) {
+        match item {
+            Ok((t, r)) => {
+                ts.push(tok_text(&t));
+                sp.push(format!("{}-{}", u32::from(r.start()), u32::from(r.end())));
+            }
+            Err(e) => return Err(format!("(err {})", u32::from(e.location))),
+        }
+    }
+    if ts.is_empty() {
+        return Ok(("-".into(), "-".into()));
+    }
+    Ok((ts.join(","), sp.join(",")))
 }
 
 fn strip_ctx(s: String) -> String {
@@ -189,6 +265,26 @@ fn handle(ws: &[&str]) -> String {
                 Ok(ast::Mod::Expression(m)) => strip_ctx(astdump::dump(&m.body, false)),
                 Ok(_) => "(unexpected-mode)".into(),
                 Err(e) => err_line(&e),
+            }
+        }
+        ["rtoks", m, src] => {
+            let (Some(mode), Some(src)) = (mode_of(m), unhex_str(src)) else { return bad() };
+            match guard(|| tokens_and_spans(&src, mode)) {
+                Some(Ok((t, s))) => format!("{} {}", t, s),
+                Some(Err(e)) => e,
+                None => "(panic)".into(),
+            }
+        }
+        ["rprog", m, src, _toks, att] => {
+            let (Some(mode), Some(src)) = (mode_of(m), unhex_str(src)) else { return bad() };
+            match tokens_and_spans(&src, mode) {
+                Ok((_, s)) if s == *att => {}
+                _ => return "stale-tokens".into(),
+            }
+            match guard(|| parse_starts_at(&src, mode, "<pvh>", TextSize::from(0))) {
+                Some(Ok(t)) => strip_ctx(astdump::dump(&t, false)),
+                Some(Err(e)) => err_line(&e),
+                None => "(panic)".into(),
             }
         }
         ["debug", m, src] => {
